@@ -9,5 +9,6 @@ ASSUME = ["L-UNPARSE: a printer whose parenthesisation depends only on (parent c
 def run(tier, seed):
     return run_components("C16", tier, seed,
                           ["e1", lambda rep, t, s: triples.run_triples(rep, "C"),
-                           lambda rep, t, s: triples.run_triples(rep, "numba"), triples.literal_precision],
+                           lambda rep, t, s: triples.run_triples(rep, "numba"),
+                           lambda rep, t, s: triples.run_quads(rep, "C", t), lambda rep, t, s: triples.run_quads(rep, "numba", t), triples.literal_precision],
                           ASSUME, ["runtime/unparse.py (canonical forms)", "pycparser", "CPython ast"])
